@@ -9,7 +9,7 @@ import (
 )
 
 func fmAnyParams() types.Params {
-	return types.Params{PoolCreationFee: sdk.Coin{Denom: fmReward, Amount: verifIntAny("pcf")}, MaxRewardCategories: 2, TaxRate: verifDecAny("tax")}
+	return types.Params{PoolCreationFee: sdk.Coin{Denom: verifDenomAny("pcfDenom", fmReward), Amount: verifIntAny("pcf")}, MaxRewardCategories: verifUint32("maxCategories"), TaxRate: verifDecAny("tax")}
 }
 
 // C16 farm: authority only; rejected sets never stored.
@@ -53,6 +53,7 @@ func VerifC16_Consumers() {
 	}
 	one := big.NewInt(1)
 	e.bank.fund(e.creator, fmReward, verifIntIn("wallet", big.NewInt(0), verifPow2(80)))
+	e.bank.fund(e.creator, "uother", verifIntIn("walletOther", big.NewInt(0), verifPow2(80)))
 	rpb := verifIntIn("rpb", one, verifPow2(30))
 	total := verifIntIn("total", one, verifPow2(60))
 	_, panicked := e.verifDeliver(func() error {
